@@ -12,6 +12,7 @@
 (*                                                                           *)
 (* The universe is a whole file system (the harness runs chroot'ed into it): *)
 (*   /a/w/root   the sandbox root          /a/w/out   an outside sibling     *)
+(*   /a/w/rootx  another outside sibling (same string prefix as the root)    *)
 (* A location is the sequence of names from "/" (no ".", "..", links): the   *)
 (* PHYSICAL place of a node.  C26: every effect location of a sandboxed call *)
 (* is under /a/w/root (Confined) - or the call has no effect.                *)
@@ -19,6 +20,7 @@ EXTENDS Integers, Sequences, FiniteSets, TLC
 
 RootLoc == <<"a", "w", "root">>
 OutLoc  == <<"a", "w", "out">>
+SibLoc  == <<"a", "w", "rootx">>   \* an outside sibling whose name has the root's name as a string prefix
 Budget  == 8      \* symlink expansions before ELOOP (Linux 40, Go 255: all finite chains here are < 4)
 
 Front(s) == SubSeq(s, 1, Len(s) - 1)
@@ -35,6 +37,7 @@ Within(p) == Len(p) >= Len(RootLoc) /\ SubSeq(p, 1, Len(RootLoc)) = RootLoc
 (* harness adds (not modelled as a node: directories are never empty)      *)
 Skeleton == (<<>> :> Dir) @@ (<<"a">> :> Dir) @@ (<<"a", "w">> :> Dir) @@ (RootLoc :> Dir) @@ (OutLoc :> Dir)
             @@ (Append(OutLoc, "s") :> File) @@ (Append(OutLoc, "e") :> Dir)
+            @@ (SibLoc :> Dir) @@ (Append(SibLoc, "s") :> File)
 
 (* link targets: relative ones are relative to the directory holding the link *)
 TL == << Sp(FALSE, <<"f">>), Sp(FALSE, <<"d">>), Sp(FALSE, <<"d", "g">>), Sp(FALSE, <<".">>),
@@ -42,7 +45,8 @@ TL == << Sp(FALSE, <<"f">>), Sp(FALSE, <<"d">>), Sp(FALSE, <<"d", "g">>), Sp(FAL
          Sp(FALSE, <<"..", "out">>), Sp(FALSE, <<"..", "out", "s">>), Sp(FALSE, <<"..", "out", "n">>),
          Sp(FALSE, <<"..", "out", "e">>), Sp(FALSE, <<"..">>), Sp(FALSE, <<"..", "..", "w", "out", "s">>),
          Sp(TRUE, <<"a", "w", "out">>), Sp(TRUE, <<"a", "w", "out", "s">>), Sp(TRUE, <<"a", "w", "out", "n">>),
-         Sp(TRUE, <<"a", "w", "root", "f">>), Sp(TRUE, <<"a", "w", "root", "d">>), Sp(TRUE, <<>>) >>
+         Sp(TRUE, <<"a", "w", "root", "f">>), Sp(TRUE, <<"a", "w", "root", "d">>), Sp(TRUE, <<>>),
+         Sp(FALSE, <<"..", "rootx", "s">>) >>
 TM == << Sp(FALSE, <<"..", "out", "s">>), Sp(FALSE, <<"..", "out", "n">>), Sp(FALSE, <<"..", "out">>),
          Sp(FALSE, <<"l">>), Sp(FALSE, <<"f">>), Sp(FALSE, <<"d">>) >>
 TK == << Sp(FALSE, <<"..", "..", "out", "s">>), Sp(FALSE, <<"..", "f">>), Sp(FALSE, <<"..", "..", "out", "n">>),
@@ -174,9 +178,9 @@ Loopy(fs) == \E p \in DOMAIN fs : /\ fs[p].k = "link" /\ Within(p)
 
 (* ------------------------------------------------------------ spellings *)
 Seqs(S, n) == UNION {[1..j -> S] : j \in 0..n}
-Prefixes == {Sp(FALSE, <<>>), Sp(TRUE, <<>>), Sp(TRUE, RootLoc), Sp(TRUE, OutLoc), Sp(TRUE, <<"a", "w">>)}
-Tails == {"f", "d", "g", "k", "l", "m", "n", "s", "e", "out", "..", ".", ""}
+Prefixes == {Sp(FALSE, <<>>), Sp(TRUE, <<>>), Sp(TRUE, RootLoc), Sp(TRUE, OutLoc), Sp(TRUE, SibLoc), Sp(TRUE, <<"a", "w">>)}
+Tails == {"f", "d", "g", "k", "l", "m", "n", "s", "e", "out", "rootx", "..", ".", ""}
 (* names worth spelling against a given layout: what exists there, plus the classics *)
-Names(fs) == {p[Len(p)] : p \in {p \in DOMAIN fs : Len(p) > 3}} \cup {"n", "out", "..", ".", ""}
+Names(fs) == {p[Len(p)] : p \in {p \in DOMAIN fs : Len(p) > 3}} \cup {"n", "out", "rootx", "..", ".", ""}
 Spellings(T, n) == {s \in {Sp(p.abs, p.c \o t) : p \in Prefixes, t \in Seqs(T, n)} : WFsp(s)}
 =============================================================================
